@@ -29,6 +29,7 @@ char* PoolAllocatorT<kThreadSafe>::alloc() {
   while (true) {
     uint32_t allocId = 0;
     if (kThreadSafe) {
+      DISPENSO_VERIF_POINT("AllocLock", this);
       allocId = backingAllocLock_.fetch_or(1, std::memory_order_acquire);
     }
 
@@ -48,6 +49,7 @@ char* PoolAllocatorT<kThreadSafe>::alloc() {
           buffer += chunkSize_;
         }
         if (kThreadSafe) {
+          DISPENSO_VERIF_POINT("AllocUnlock", this);
           backingAllocLock_.store(0, std::memory_order_release);
         }
         return buffer;
@@ -55,6 +57,7 @@ char* PoolAllocatorT<kThreadSafe>::alloc() {
       char* back = chunks_.back();
       chunks_.pop_back();
       if (kThreadSafe) {
+        DISPENSO_VERIF_POINT("AllocUnlock", this);
         backingAllocLock_.store(0, std::memory_order_release);
       }
       return back;
@@ -76,11 +79,13 @@ void PoolAllocatorT<kThreadSafe>::dealloc(char* ptr) {
   while (true) {
     uint32_t allocId = 0;
     if (kThreadSafe) {
+      DISPENSO_VERIF_POINT("DeallocLock", this);
       allocId = backingAllocLock_.fetch_or(1, std::memory_order_acquire);
     }
     if (allocId == 0) {
       chunks_.push_back(ptr);
       if (kThreadSafe) {
+        DISPENSO_VERIF_POINT("DeallocUnlock", this);
         backingAllocLock_.store(0, std::memory_order_release);
       }
       break;
